@@ -37,6 +37,7 @@ class Extract:
         self.external_body = False  # emit signature+contract only (callee represented by contract)
         self.drop_fields = []
         self.derives = []
+        self.cut_before = False
         self.optional_loops = set()
         self.anchor = None
         self.params = None
@@ -136,6 +137,9 @@ def parse(template_text):
                             ex.params = v.strip('`')
                         elif k == 'cut_after':
                             ex.cut_after = v.strip('`')
+                        elif k == 'cut_before':
+                            ex.cut_after = v.strip('`')
+                            ex.cut_before = True
                         elif k == 'no_release_variant':
                             ex.no_release_variant = True
                         elif k == 'external_body':
@@ -309,15 +313,19 @@ def expand_extract(ex, canary=False):
         if len(hits) != 1:
             raise AnchorLost('%s: cut_after anchor %r matched %d times' % (ex.id, ex.cut_after, len(hits)))
         k, depth = hits[0], 0
-        while k < len(mt):
-            ch = mt[k]
-            if ch in '([{':
-                depth += 1
-            elif ch in ')]}':
-                depth -= 1
-            elif ch == ';' and depth <= 0:
-                break
-            k += 1
+        if ex.cut_before:
+            # cut in front of the statement that starts at the anchor
+            k = hits[0] - 1
+        else:
+            while k < len(mt):
+                ch = mt[k]
+                if ch in '([{':
+                    depth += 1
+                elif ch in ')]}':
+                    depth -= 1
+                elif ch == ';' and depth <= 0:
+                    break
+                k += 1
         prefix = text[:k + 1]
         pm = mask(prefix)
         open_braces = pm.count('{') - pm.count('}')
